@@ -48,7 +48,8 @@ ASSUMPTIONS = [
 REQUIRED = ["histories", "operations", "open_log_checks", "index_ops", "negative_index_ops",
             "slice_ops", "iterate_ops", "filter_ops", "out_of_range_ops", "chain_elements_checked",
             "chain_negative_indices", "chain_empty_members", "populations_rows_checked", "populations_slices_checked",
-            "to_population_checked", "map_checked", "map_verbose_checked", "large_populations",
+            "to_population_checked", "map_checked", "map_verbose_checked", "map_then_read_audited", "listing_order_injected",
+            "large_populations",
             "transform_checked", "tap_load",
             "audit_file_opens"]
 FLOOR = {"quick": 250, "thorough": 5000}
@@ -358,9 +359,29 @@ def check_populations(ctx, case, tmp):
     for fs in filesets[1:]:
         inter &= set(fs)
     audit.start(tmp)
+    # the order in which a directory lists its files is the operating system's business and may
+    # differ from one directory to the next: inject a different (deterministic) order per
+    # directory at the os.walk hook, rows must still pair same-named files
+    real_walk = os.walk
+
+    def shuffled_walk(top, *a, **kw):
+        for r_, dirs, files_ in real_walk(top, *a, **kw):
+            rr = np.random.default_rng(abs(hash(os.path.relpath(r_, tmp))) % (2**32))
+            files_ = list(files_)
+            rr.shuffle(files_)
+            dirs.sort(key=lambda d_: rr.random())
+            yield r_, dirs, files_
+
+    os.walk = shuffled_walk
+    ctx.count("listing_order_injected")
+    try:
+        with warnings.catch_warnings():
+            warnings.simplefilter("ignore")
+            pops = Populations.from_swc(roots)
+    finally:
+        os.walk = real_walk
     with warnings.catch_warnings():
         warnings.simplefilter("ignore")
-        pops = Populations.from_swc(roots)
         if len(pops) != len(inter):
             return ctx.violation("populations-length", f"{len(pops)} rows for an intersection of "
                                                        f"{len(inter)} same-named files", case)
@@ -459,11 +480,25 @@ def check_map(ctx, case, tmp):
         want = [files[r] for r in listing]
         verbose = bool(case.get("verbose"))
         os.environ["RV_SLOW_MARKER"] = repr(float(want[0][1]))
+        audit.start(tmp)
         try:
             res = list(pop.map(_count_nodes_slow_first if len(want) > 1 else _count_nodes,
                                max_worker=2, verbose=verbose))
         finally:
             os.environ.pop("RV_SLOW_MARKER", None)
+        # mapping has loaded every tree (in this process): reading them afterwards, by index and
+        # by iteration, and mapping again must not open any file a second time
+        for i in range(len(pop)):
+            pop[i]
+        list(pop)
+        list(pop.map(_count_nodes, max_worker=2))
+        opened = Counter(os.path.realpath(p) for p, _ in audit.stop() if p.endswith(".swc"))
+        twice = [p for p, c in opened.items() if c > 1]
+        ctx.count("map_then_read_audited")
+        if twice:
+            return ctx.violation("file-read-twice", f"{os.path.basename(twice[0])} opened "
+                                                    f"{opened[twice[0]]} times across map / index / "
+                                                    f"iterate / map", case)
     ctx.count("map_checked")
     if verbose:
         ctx.count("map_verbose_checked")
